@@ -100,6 +100,9 @@ var glSpecs = []glSpec{
 	{"blocktimeindex", "Index", "marshalBinary", "btMarshal"},
 	{"blocktimeindex", "Index", "unmarshalBinary", "btUnmarshal"},
 	{"compactindexsized", "Header", "Load", "ciHeaderLoad"},
+	{"bucketteer", "", "Hash", "bkHash"},
+	{"bucketteer", "", "readUint64Le", "bkReadUint64Le"},
+	{"bucketteer", "Reader", "Has", "bkReaderHas"},
 	{"gsfa/linkedlog", "uvarintReader", "ReadUvarint", "uvrReadUvarint"},
 	{"gsfa/linkedlog", "uvarintReader", "ReadByte", "uvrReadByte"},
 	{"gsfa/linkedlog", "OffsetAndSizeAndSlot", "FromReader", "oassFromReader"},
@@ -116,7 +119,7 @@ var glExterns = map[string]glExtern{
 }
 
 // functions whose Go errors are data (they inspect, compare and return error VALUES such as io.EOF)
-var glErrData = map[string]bool{"scfMultiReadAt": true, "uvrReadUvarint": true, "uvrReadByte": true, "oassFromReader": true, "oassSliceFromBytes": true}
+var glErrData = map[string]bool{"scfMultiReadAt": true, "uvrReadUvarint": true, "uvrReadByte": true, "oassFromReader": true, "oassSliceFromBytes": true, "bkReadUint64Le": true, "bkReaderHas": true}
 
 var leanKeywords = map[string]bool{}
 
@@ -526,7 +529,10 @@ func (g *glGen) leanTypeOK(t types.Type) (string, bool) {
 	if isErrorType(t) {
 		return "Go.Error", true // only reached in functions translated with errors as data
 	}
-	if isNamed(t, "io", "ReaderAt") {
+	if isNamed(t, "io", "ReaderAt") || isNamed(t, "io", "SectionReader") {
+		return "Go.ReaderAt", true
+	}
+	if pt, ok := t.(*types.Pointer); ok && isNamed(pt.Elem(), "io", "SectionReader") {
 		return "Go.ReaderAt", true
 	}
 	if nt, ok := t.(*types.Named); ok {
